@@ -25,6 +25,12 @@ import (
 //       (`__block_id=~"id|id|…"`; when every keep is 1 no matcher is sent)
 //     -> `ok f=<failed adds> <res:mint:maxt of the result, in order, joined by ;> <sorted ids joined by ,>` | `panic`
 //
+//   bs.hist <blocks> <ops> <mint> <maxt> <maxres>
+//       ops = `a<i>` add block i / `r<i>` remove block i (by ULID; also when it is not in the set) joined by `,`:
+//       a history of the set (retention drops a block, a compacted block replaces its sources, a block comes back);
+//       the query is made on what the history leaves
+//     -> as bs.getfor (f = failed adds)
+//
 // oracle (on the implementation's answer, independent of the model):
 //   resolution-exceeded   a returned block has resolution > maxres
 //   no-overlap            a returned block does not overlap [mint, maxt]
@@ -78,8 +84,14 @@ func c15ULID(i int) ulid.ULID {
 }
 
 func execC15(c *hlib.Ctx, tok []string) (out string) {
-	if len(tok) != 5 || tok[0] != "bs.getfor" {
+	hist := len(tok) == 6 && tok[0] == "bs.hist"
+	if !hist && (len(tok) != 5 || tok[0] != "bs.getfor") {
 		return "bad-op"
+	}
+	var opsTok string
+	if hist {
+		opsTok = tok[2]
+		tok = append([]string{tok[0], tok[1]}, tok[3:]...)
 	}
 	blocks, ok := parseC15Blocks(tok[1])
 	mint, e1 := strconv.ParseInt(tok[2], 10, 64)
@@ -87,6 +99,21 @@ func execC15(c *hlib.Ctx, tok []string) (out string) {
 	maxRes, e3 := strconv.ParseInt(tok[4], 10, 64)
 	if !ok || e1 != nil || e2 != nil || e3 != nil {
 		return "bad-op"
+	}
+	// the history: without one, every block is added once, in order
+	var ops []store.VerifStoresBlockSetOp
+	if hist {
+		for _, t := range hlib.Split(opsTok, ",") {
+			i, err := strconv.Atoi(t[1:])
+			if err != nil || i < 0 || i >= len(blocks) || (t[0] != 'a' && t[0] != 'r') {
+				return "bad-op"
+			}
+			ops = append(ops, store.VerifStoresBlockSetOp{Add: t[0] == 'a', Idx: i})
+		}
+	} else {
+		for i := range blocks {
+			ops = append(ops, store.VerifStoresBlockSetOp{Add: true, Idx: i})
+		}
 	}
 	metas := make([]*metadata.Meta, len(blocks))
 	allKeep := true
@@ -124,11 +151,18 @@ func execC15(c *hlib.Ctx, tok []string) (out string) {
 			out = "panic"
 		}
 	}()
-	added, res := store.VerifStoresBlockSetGetFor(metas, mint, maxt, maxRes, ms)
-	failed := 0
-	for _, a := range added {
-		if !a {
-			failed++
+	failed, res := store.VerifStoresBlockSetHistory(metas, ops, mint, maxt, maxRes, ms)
+	// which blocks the history leaves in the set (an add fails exactly for an unsupported resolution)
+	added := make([]bool, len(blocks))
+	for _, op := range ops {
+		sup := false
+		for _, r := range c15Resolutions {
+			sup = sup || r == blocks[op.Idx].res
+		}
+		if op.Add {
+			added[op.Idx] = sup
+		} else {
+			added[op.Idx] = false
 		}
 	}
 	seq := make([]string, len(res))
@@ -367,6 +401,7 @@ func genC15(c *hlib.Ctx) {
 			}
 		}
 	}
+	genC15Histories(c, c.N(3000, 150000))
 	if c.Tier == "thorough" {
 		genC15Exhaustive(c)
 	}
@@ -418,5 +453,88 @@ func genC15Exhaustive(c *hlib.Ctx) {
 				emit([]c15Block{shapes[a], shapes[b], shapes[d]})
 			}
 		}
+	}
+}
+
+// genC15Histories: add/remove histories. Blocks are added (never while present), removed (first, middle, last, absent,
+// never added), re-added; the query follows a remove directly in half of the cases.
+func genC15Histories(c *hlib.Ctx, n int) {
+	r := c.R
+	for i := 0; i < n; i++ {
+		blocks := genC15Layout(c)
+		if len(blocks) < 3 && r.Chance(3, 4) {
+			// several blocks of one resolution, so that a removal in the middle matters
+			res := c15Resolutions[r.Intn(3)]
+			t := int64(r.Intn(100))
+			blocks = nil
+			for k, m := 0, r.Range(3, 7); k < m; k++ {
+				w := int64(r.Range(1, 4)) * 50
+				blocks = append(blocks, c15Block{res, t, t + w, true})
+				t += w
+				if r.Chance(1, 4) {
+					t += int64(r.Range(1, 80))
+				}
+			}
+			if r.Bool() {
+				blocks = append(blocks, c15Block{c15Resolutions[r.Intn(3)], int64(r.Intn(200)), int64(r.Range(300, 900)), true})
+			}
+		}
+		if len(blocks) == 0 {
+			continue
+		}
+		present := make([]bool, len(blocks))
+		var ops []string
+		for _, k := range r.Perm(len(blocks)) {
+			ops = append(ops, fmt.Sprintf("a%d", k))
+			present[k] = true
+		}
+		steps := r.Range(1, 6)
+		for sidx := 0; sidx < steps; sidx++ {
+			k := r.Intn(len(blocks))
+			switch {
+			case present[k] && r.Chance(2, 3):
+				ops = append(ops, fmt.Sprintf("r%d", k))
+				present[k] = false
+				c.Count("hist:remove-present")
+			case !present[k] && r.Chance(1, 2):
+				ops = append(ops, fmt.Sprintf("a%d", k))
+				present[k] = true
+				c.Count("hist:re-add")
+			case !present[k]:
+				ops = append(ops, fmt.Sprintf("r%d", k))
+				c.Count("hist:remove-absent")
+			}
+		}
+		if r.Bool() { // the query directly after a remove
+			var cand []int
+			for k, p := range present {
+				if p {
+					cand = append(cand, k)
+				}
+			}
+			if len(cand) > 0 {
+				k := cand[r.Intn(len(cand))]
+				ops = append(ops, fmt.Sprintf("r%d", k))
+				present[k] = false
+				c.Count("hist:query-after-remove")
+			}
+		}
+		var mint, maxt int64
+		switch r.Intn(4) {
+		case 0:
+			mint, maxt = -100, 1500
+		case 1:
+			b1, b2 := blocks[r.Intn(len(blocks))], blocks[r.Intn(len(blocks))]
+			mint, maxt = b1.mint+int64(r.Range(-1, 1)), b2.maxt+int64(r.Range(-1, 1))
+		default:
+			mint = int64(r.Range(-50, 1000))
+			maxt = mint + int64(r.Intn(1100))
+		}
+		maxRes := []int64{0, 300000, 3600000, 3600000, math.MaxInt64}[r.Intn(5)]
+		bs := make([]string, len(blocks))
+		for k, b := range blocks {
+			bs[k] = fmt.Sprintf("%d:%d:%d:1", b.res, b.mint, b.maxt)
+		}
+		c.Do(fmt.Sprintf("bs.hist %s %s %d %d %d", strings.Join(bs, ","), strings.Join(ops, ","), mint, maxt, maxRes), true)
 	}
 }
